@@ -484,12 +484,160 @@ def rule_alpha_region(ctx):
                 % len(looked), fn=f)
 
 
+def rule_alpha_depth(ctx):
+    """the plane picked by the alpha index is converted to float with the bit depth looked up by the alpha index"""
+    rid = "R-ALPHA-DEPTH"
+    ctx.rule(rid, "blend() converts integer planes to float with `convert_to_float_modular(bit_depth)`; every channel has its own bit "
+                  "depth (metadata.bit_depth for colour, ec_info[i].bit_depth for extra channel i).  Pairing, decided by forward data "
+                  "flow from the alpha-channel index: when the plane being converted is selected through a value derived from the "
+                  "alpha index, the bit-depth argument is derived from the alpha index too (today: ec_info[alpha].bit_depth for "
+                  "both the base frame's and the new frame's alpha plane).  A conversion of the alpha plane with the depth of the "
+                  "channel being blended scales alpha wrongly whenever the two depths differ")
+    total = 0
+    for name in (BLEND, "jxl_render::blend::patch"):
+        f = ctx.prog.crate("jxl_render").fn(name)
+        if f is None:
+            ctx.anchor_missing(rid, name)
+            return
+        ctx.seen(f)
+        r = alpha_depth_in(ctx, rid, f)
+        if r is None:
+            return
+        total += r
+    ctx.floor(rid + ".conversions", 6)
+
+
+def alpha_depth_in(ctx, rid, f):
+    short = f.path.split("::")[-1]
+    T = set()
+    helper_res = {t[3][0] for b, t in f.calls() if callee(t) and "alpha" in callee(t)["fn"].split("::")[-1] and t[3] and len(t[3]) == 1}
+    for blk in f.blocks:
+        if blk[2]:
+            continue
+        for st in blk[0]:
+            if st[0] == "=" and len(st[1]) == 1 and st[2][0] in ("use", "cast"):
+                p = op_place(st[2][1] if st[2][0] == "use" else st[2][2])
+                if p is None:
+                    continue
+                fl = [e for e in p[1:] if isinstance(e, list) and e[0] == "."]
+                # the alpha index: BlendingInfo / PatchBlendingInfo .alpha_channel, or the Option<usize> half of the helper's result
+                if fl and (fl[-1][2] == "alpha_channel" or
+                           (len(p) == 2 and p[0] in helper_res and "Option<usize>" in f.local_ty(st[1][0]))):
+                    T.add(st[1][0])
+    if not T:
+        ctx.anchor_missing(rid, "the alpha-channel index in %s()" % short)
+        return None
+
+    def place_tainted(p):
+        return p is not None and (p[0] in T or any(isinstance(e, list) and e[0] == "[]" and e[1] in T for e in p[1:]))
+
+    def rv_places(rv):
+        k = rv[0]
+        if k in ("ref", "rawptr"):
+            return [rv[2]]
+        if k == "discr":
+            return []
+        ops = [rv[1]] if k in ("use", "repeat") else ([rv[2]] if k in ("cast", "un") else ([rv[2], rv[3]] if k == "bin" else (rv[2] if k == "agg" else [])))
+        return [op_place(o) for o in ops if op_place(o) is not None]
+
+    changed = True
+    while changed:
+        changed = False
+        for blk in f.blocks:
+            if blk[2]:
+                continue
+            for st in blk[0]:
+                if st[0] == "=" and st[1][0] not in T and any(place_tainted(p) for p in rv_places(st[2])):
+                    T.add(st[1][0])
+                    changed = True
+            t = blk[1]
+            if t[0] == "call" and t[3] and t[3][0] not in T and any(place_tainted(op_place(a)) for a in t[2]):
+                T.add(t[3][0])
+                changed = True
+    conv = [(b, t) for b, t in f.calls() if callee(t) and strip_generics_name(callee(t)["fn"]).endswith("::convert_to_float_modular")]
+    ctx.count(rid + ".conversions", len(conv))
+    if not conv:
+        ctx.anchor_missing(rid, "calls of convert_to_float_modular in %s()" % short)
+        return None
+    defs = Defs(f)
+
+    def sel_place(P, seen):
+        """is the plane this place denotes picked by the alpha index?  The last indexing decides: a variable index derived from the
+        alpha index, or a constant index into a slice that a call cut at an alpha-derived position (split_at_mut(alpha + cc).1[0]);
+        a variable index that does not derive from it picks another plane even when the slice was cut at the alpha position."""
+        idx = [e for e in P[1:] if isinstance(e, list) and e[0] in ("[]", "[c]", "[..]")]
+        if idx:
+            e = idx[-1]
+            if e[0] == "[]":
+                if e[1] in T:
+                    return True
+                d = defs.single(e[1])
+                if not (d and d[2] == "assign" and d[3][2][0] == "use" and d[3][2][1][0] == "k"):
+                    return False
+            return P[0] in T
+        fl = [e for e in P[1:] if isinstance(e, list) and e[0] == "."]
+        if fl:
+            # a tuple built from references: follow the component
+            out = False
+            for d in defs.of(P[0]):
+                if f.is_cleanup(d[0]):
+                    continue
+                if d[2] == "assign" and d[3][2][0] == "agg" and fl[0][1] < len(d[3][2][2]):
+                    q = op_place(d[3][2][2][fl[0][1]])
+                    out = out or (q is not None and sel_local(q[0], seen))
+                elif d[2] == "assign" and d[3][2][0] in ("use", "ref"):
+                    q = op_place(d[3][2][1]) if d[3][2][0] == "use" else d[3][2][2]
+                    out = out or (q is not None and sel_place(list(q) + fl, seen))
+                elif d[2] == "call":
+                    out = out or P[0] in T
+            return out
+        return sel_local(P[0], seen)
+
+    def sel_local(l, seen):
+        if l in seen:
+            return False
+        seen = seen | {l}
+        out = False
+        for d in defs.of(l):
+            if f.is_cleanup(d[0]) or d[2] == "partial":
+                continue
+            if d[2] == "call":
+                out = out or l in T
+            else:
+                rv = d[3][2]
+                q = rv[2] if rv[0] in ("ref", "rawptr") else (op_place(rv[1]) if rv[0] == "use" else (op_place(rv[2]) if rv[0] == "cast" else None))
+                out = out or (q is not None and sel_place(q, seen))
+        return out
+
+    n = 0
+    for b, t in conv:
+        if len(t[2]) < 2:
+            continue
+        rp = op_place(t[2][0])
+        if rp is not None and sel_place(rp, frozenset()):
+            n += 1
+            if not place_tainted(op_place(t[2][1])):
+                ctx.bad(rid, "%s|alpha-plane-depth" % short, "a plane selected through the alpha-channel index is converted to float with a bit "
+                        "depth that does not derive from the alpha channel's own ec_info entry", fn=f, pos=t[-2])
+                return None
+    ctx.count(rid + ".alpha-conversions", n)
+    ctx.ok(rid, "%s|alpha-plane-depth" % short, "%d conversions, %d of a plane selected by the alpha index, each with a depth derived from "
+           "that index" % (len(conv), n), nontrivial=n > 0, fn=f)
+    return len(conv)
+
+
+def strip_generics_name(s):
+    from ..mirutil import strip_generics
+    return strip_generics(s)
+
+
 def main(pid, tier, repo=None):
     ctx = Ctx(pid, tier, configs=("workspace",), repo=repo)
     rule_slot(ctx)
     rule_slotpred(ctx)
     rule_blendsrc(ctx)
     rule_alpha_region(ctx)
+    rule_alpha_depth(ctx)
     from . import enummap
     enummap.run(ctx, pid)
     from . import fixguards
